@@ -1,0 +1,29 @@
+//go:build verif
+
+package escape
+
+import "golang.org/x/tools/go/ssa"
+
+// This file only exists with the build tag `verif` (C15 harness: lattice laws / monotonicity on real graphs).
+
+// VerifAddNode applies the real AddNode (the node gets its intrinsic status and an empty out-edge map).
+func VerifAddNode(g *EscapeGraph, n *Node) { g.AddNode(n) }
+
+// VerifGroupKey returns an opaque comparable key for the node group (function context) the graph g belongs to.
+func VerifGroupKey(g *EscapeGraph) any { return g.nodes }
+
+// VerifGroupKeyOf returns the key of the node group of the summarised function f (nil if f has no summary).
+func VerifGroupKeyOf(prog *ProgramAnalysisState, f *ssa.Function) any {
+	if s := prog.summaries[f]; s != nil && s.nodes != nil {
+		return s.nodes
+	}
+	return nil
+}
+
+// VerifInitialGraph returns the graph on entry to the summarised function f (never mutated by the analysis).
+func VerifInitialGraph(prog *ProgramAnalysisState, f *ssa.Function) *EscapeGraph {
+	if s := prog.summaries[f]; s != nil {
+		return s.initialGraph
+	}
+	return nil
+}
